@@ -22,25 +22,38 @@ import (
 	"sync"
 )
 
+// a handler that panics (contained by the OnPanic hook of shapes that have one)
+func verifC03Boom(c *Context) { panic("boom") }
+
 type verifC03Shape struct {
 	useCalls []int // global middleware per Use call
 	routeMws int   // route middleware; negative: added one by one through Route.Use (spare capacity)
 	cache    int // -1 off, else capacity
 	notAllow bool
+	onPanic  bool // OnPanic hook installed and a panicking route registered
 }
 
 var verifC03Shapes = []verifC03Shape{
-	{nil, 0, -1, false},
-	{[]int{1}, 0, -1, false},
-	{[]int{3}, 1, -1, false},
-	{[]int{1, 1, 1}, 0, -1, false}, // len 3, cap 4: spare capacity in the shared array
-	{[]int{1, 2}, 2, -1, true},
-	{[]int{2}, 3, 2, false},
-	{nil, 3, 1, true},
-	{[]int{1, 1, 1}, 3, 2, true},
-	{[]int{1}, 1, 1, false},
-	{nil, -3, -1, false},
-	{[]int{1, 1, 1}, -3, 1, true},
+	{nil, 0, -1, false, false},
+	{[]int{1}, 0, -1, false, false},
+	{[]int{3}, 1, -1, false, false},
+	{[]int{1, 1, 1}, 0, -1, false, false}, // len 3, cap 4: spare capacity in the shared array
+	{[]int{1, 2}, 2, -1, true, false},
+	{[]int{2}, 3, 2, false, false},
+	{nil, 3, 1, true, false},
+	{[]int{1, 1, 1}, 3, 2, true, false},
+	{[]int{1}, 1, 1, false, false},
+	{nil, -3, -1, false, false},
+	{[]int{1, 1, 1}, -3, 1, true, false},
+}
+
+func init() {
+	// the same shapes once more with an OnPanic hook
+	for _, k := range []int{0, 2, 5} {
+		sh := verifC03Shapes[k]
+		sh.onPanic = true
+		verifC03Shapes = append(verifC03Shapes, sh)
+	}
 }
 
 type verifC03Req struct{ method, path string }
@@ -56,6 +69,8 @@ var verifC03Pairs = [][2]verifC03Req{
 	{{"GET", "/x7"}, {"POST", "/d/7"}},
 	{{"POST", "/m"}, {"POST", "/m"}},
 	{{"GET", "/d/3"}, {"GET", "/x/3"}},
+	{{"GET", "/boom"}, {"GET", "/s1"}},
+	{{"GET", "/boom"}, {"GET", "/boom"}},
 }
 
 func verifC03Router(sh verifC03Shape) *Router {
@@ -91,6 +106,13 @@ func verifC03Router(sh verifC03Shape) *Router {
 	r.GET("/{v}", body("v"))
 	r.Add("/m", body("m"), "TRACE", "PUT", "DELETE", "GET")
 	r.GET("/x/{id}", body("x"))
+	if sh.onPanic {
+		r.OnPanic = func(c *Context) {
+			c.SetStatus(500)
+			c.WriteString("recovered:" + c.Req.URL.Path)
+		}
+		r.GET("/boom", verifC03Boom)
+	}
 	return r
 }
 
@@ -102,9 +124,10 @@ func verifC03Serve(r *Router, q verifC03Req) (int, string) {
 
 func verifHarness_C03_pairs() {
 	cfg := verifCfg()
-	sh := verifC03Shapes[cfg%len(verifC03Shapes)]
-	pair := verifC03Pairs[(cfg/len(verifC03Shapes))%len(verifC03Pairs)]
-	warm := (cfg / (len(verifC03Shapes) * len(verifC03Pairs))) % 4 // 0 none, 1 both, 2 only the first, 3 only the second
+	nShapes := 14 // len(verifC03Shapes) after init
+	sh := verifC03Shapes[cfg%nShapes]
+	pair := verifC03Pairs[(cfg/nShapes)%len(verifC03Pairs)]
+	warm := (cfg / (nShapes * len(verifC03Pairs))) % 4 // 0 none, 1 both, 2 only the first, 3 only the second
 	r := verifC03Router(sh)
 	// what each request produces when it is the only request
 	soloA1, soloA2 := verifC03Serve(verifC03Router(sh), pair[0])
